@@ -15,7 +15,7 @@ import (
 )
 
 type opIn struct {
-	K string `json:"k"` // r | w | ck | lt | ls
+	K string `json:"k"` // r | w | ck | lt | ls | sv (save aside) | rs (load the stream kept aside into the current storage)
 	A uint64 `json:"a,omitempty"`
 	N uint64 `json:"n,omitempty"` // read length / truncation selector / header capacity
 	U uint64 `json:"u,omitempty"` // header unit size
@@ -53,6 +53,8 @@ func run(raw json.RawMessage) (hx.Case, error) {
 		return hx.Case{}, err
 	}
 	st := mem.NewStorageWithUnitSize(in.Cap, in.Unit)
+	var aside []byte // stream kept by the last "sv"
+	haveAside := false
 	var ops, obs []string
 	var outs []obsOut
 	tags := map[string]bool{}
@@ -90,11 +92,18 @@ func run(raw json.RawMessage) (hx.Case, error) {
 			}
 			fresh := mem.NewStorageWithUnitSize(in.Cap, in.Unit)
 			err := fresh.LoadCheckpoint(bytes.NewReader(buf.Bytes()))
+			same := false
 			if err == nil {
 				st = fresh
+				// the restored storage must save to the very same stream
+				var again bytes.Buffer
+				if err2 := st.SaveCheckpoint(&again); err2 != nil {
+					return hx.Case{}, err2
+				}
+				same = bytes.Equal(again.Bytes(), buf.Bytes())
 			}
 			ops = append(ops, "OCkpt")
-			obs = append(obs, hx.App("BCkpt", hx.Bytes(buf.Bytes()), hx.B(err == nil)))
+			obs = append(obs, hx.App("BCkpt", hx.Bytes(buf.Bytes()), hx.B(err == nil), hx.B(same)))
 			outs = append(outs, obsOut{Kind: map[bool]string{true: "ok", false: "err"}[err == nil], Stream: buf.Len()})
 			tags["ckpt"] = true
 		case "lt":
@@ -125,6 +134,30 @@ func run(raw json.RawMessage) (hx.Case, error) {
 			} else {
 				tags["load:other-shape"] = true
 			}
+		case "sv":
+			var buf bytes.Buffer
+			if err := st.SaveCheckpoint(&buf); err != nil {
+				return hx.Case{}, err
+			}
+			aside = append([]byte{}, buf.Bytes()...)
+			haveAside = true
+			ops = append(ops, "OSave")
+			obs = append(obs, hx.App("BSave", hx.Bytes(aside)))
+			outs = append(outs, obsOut{Kind: "ok", Stream: len(aside)})
+			tags["save-aside"] = true
+		case "rs":
+			ok := false
+			if haveAside {
+				// into the CURRENT storage, whatever it has allocated since the save
+				ok = st.LoadCheckpoint(bytes.NewReader(aside)) == nil
+				tags["restore:into-dirty-storage"] = true
+				nontrivial = true
+			} else {
+				tags["restore:nothing-saved"] = true
+			}
+			ops = append(ops, "ORestore")
+			obs = append(obs, hx.App("BLoad", hx.B(ok)))
+			outs = append(outs, obsOut{Kind: map[bool]string{true: "ok", false: "err"}[ok]})
 		default:
 			return hx.Case{}, fmt.Errorf("unknown op %q", o.K)
 		}
@@ -170,7 +203,7 @@ func classify(tags map[string]bool, nontrivial *bool, in input, kind string, a, 
 }
 
 func gen(r *hx.Rand, tier string) []json.RawMessage {
-	n := 330
+	n := 360
 	if tier == "thorough" {
 		n = 6000
 	}
@@ -218,6 +251,20 @@ func gen(r *hx.Rand, tier string) []json.RawMessage {
 			ops = append(ops, opIn{K: "ck"})
 			tail()
 			out = append(out, hx.J(input{cp, un, ops}))
+		}
+	}
+	// rollback: save, keep writing into units inside and outside the saved set, read (which
+	// allocates zero units), load the earlier stream into the dirty storage, read everything back
+	for _, un := range []uint64{1, 3, 4, 8} {
+		for _, cp := range []uint64{5 * un, 7*un + 2, 40} {
+			rd := opIn{K: "r", A: 0, N: cp}
+			out = append(out, hx.J(input{cp, un, []opIn{
+				{K: "w", A: un, D: []byte{1, 2}}, {K: "sv"},
+				{K: "w", A: 3 * un, D: []byte{7, 7, 7}}, {K: "w", A: un, D: []byte{9}}, {K: "r", A: 4 * un, N: 1},
+				rd, {K: "rs"}, rd, {K: "ck"}, rd}}))
+			out = append(out, hx.J(input{cp, un, []opIn{
+				{K: "rs"}, {K: "sv"}, {K: "w", A: 0, D: []byte{5}}, {K: "w", A: cp - 1, D: []byte{6}}, {K: "rs"}, rd,
+				{K: "w", A: 2 * un, D: []byte{3}}, {K: "sv"}, {K: "w", A: 2 * un, D: []byte{0}}, {K: "r", A: 0, N: 1}, {K: "ck"}, {K: "rs"}, rd}}))
 		}
 	}
 	// unit size zero: division by zero panics as soon as a unit is touched
@@ -274,7 +321,7 @@ func gen(r *hx.Rand, tier string) []json.RawMessage {
 			}
 		}
 		for i := 0; i < nops; i++ {
-			switch r.Pick(10, 10, 2, 1, 1, 1) {
+			switch r.Pick(10, 10, 2, 1, 1, 1, 2, 2) {
 			case 0:
 				a := pickAddr()
 				l := pickLen()
@@ -299,6 +346,10 @@ func gen(r *hx.Rand, tier string) []json.RawMessage {
 				ops = append(ops, opIn{K: "lt", N: r.U64()})
 			case 4:
 				ops = append(ops, opIn{K: "ls", N: cp, U: un})
+			case 6:
+				ops = append(ops, opIn{K: "sv"})
+			case 7:
+				ops = append(ops, opIn{K: "rs"})
 			default:
 				c2, u2 := cp, un
 				if r.Bool() {
@@ -308,6 +359,21 @@ func gen(r *hx.Rand, tier string) []json.RawMessage {
 				}
 				ops = append(ops, opIn{K: "ls", N: c2, U: u2})
 			}
+		}
+		// half of the histories end with a rollback to the stream kept aside (or a save + more writes + rollback)
+		if r.Bool() {
+			if r.Bool() {
+				ops = append(ops, opIn{K: "sv"})
+				for j := r.Range(1, 3); j > 0; j-- {
+					a := pickAddr()
+					ops = append(ops, opIn{K: "w", A: a, D: r.Bytes(int(1 + r.U64n(2*un+1)))})
+					touched = append(touched, a)
+				}
+				if r.Bool() {
+					ops = append(ops, opIn{K: "r", A: pickAddr(), N: 1})
+				}
+			}
+			ops = append(ops, opIn{K: "rs"})
 		}
 		// read back: everything for small storages, windows around writes otherwise
 		if cp <= 70 {
